@@ -10,8 +10,17 @@ Harnesses
 Oracle (exactly the property statement): on normal return the peer's byte stream == concatenation of the chunks
 of all packets sent so far; on TimeoutError / ConnectionError it is a prefix of that; nothing else may escape;
 virtual elapsed <= timeout; termination: no run of socket calls that neither transfer a byte nor are told to block
-(SimNet livelock detector), at most one zero-length socket call per chunk, after an async send the loop goes idle
-and aclose() completes.  TLS transports are added by the lead (not in this file yet).
+(send tap below + SimNet livelock detector), at most one zero-length socket call per chunk, no more bytes handed to the
+socket than the packet holds, after an async send the loop goes idle and aclose() completes.
+TLS transports are added by the lead (not in this file yet).
+
+Findings made by this check (all fixed in /repo, listed as `fixed` in known_findings.json, so nothing is avoided:
+empty chunks and zero-chunk packets are generated everywhere; `world.avoid_known` is not consulted):
+  C04/sync-sendmsg/spin/empty-chunk                     D2  sendmsg window of empty views never consumed
+  C04/aio-adapter/spin/empty-chunk (+ aclose-hangs/...) D3  empty view left in asyncio's write queue
+  C04/aio-adapter/send-raises/AssertionError/zero-chunks D11 packet with no chunk -> asyncio writelines() asserts
+  C04/aio-adapter/bytes-equal/returned-before-flush     D12 writelines() path returned before the data was flushed
+`window_trigger()` is the exact input class of D2/D3; it only selects the key of a spin violation.
 """
 from __future__ import annotations
 
